@@ -1,0 +1,19 @@
+//go:build verif
+
+package parser
+
+// Read-only accessor for the verification harness (/verif). Built only with -tags verif.
+
+// VerifTokens runs the lexer on src and returns the tokens it delivers, up to and
+// including the first EOF or error token, or until the channel is closed.
+func VerifTokens(src string) []Token {
+	l := Lex(src)
+	var out []Token
+	for tok := range l.tokens {
+		out = append(out, tok)
+		if tok.Kind == EOF || tok.Kind == tokenError {
+			break
+		}
+	}
+	return out
+}
